@@ -68,9 +68,12 @@ func flattenSkeletonToNodes(offset int, skeleton animation.Skeleton, out *bytes.
 	nodes := make([]Node, 0)
 
 	for i := 0; i < skeleton.JointCount(); i++ {
-		children := skeleton.Children(i)
-		for i, c := range children {
-			children[i] = c + offset
+		// Children hands out the skeleton's own slice: the node gets a copy, the
+		// caller's skeleton is only read
+		jointChildren := skeleton.Children(i)
+		children := make([]int, len(jointChildren))
+		for k, c := range jointChildren {
+			children[k] = c + offset
 		}
 
 		// relativeMatrix := skeleton.RelativeMatrix(i)
